@@ -37,12 +37,12 @@ type Op struct {
 
 type Work struct {
 	Clients [][]Op         `json:"clients"`
-	Rooted  bool           `json:"rooted"`  // S has no parent
-	Child   bool           `json:"child"`   // client 0 owns a private child K of S
+	Rooted  bool           `json:"rooted"`         // S has no parent
+	Child   bool           `json:"child"`          // client 0 owns a private child K of S
 	KMod    bool           `json:"kmod,omitempty"` // K is a module of S (bound as "k" in S): paths lead from S into K while K's operations walk up into S
 	UY      bool           `json:"uy,omitempty"`   // releasing a lock is a scheduling point as well
-	SInit   map[string]int `json:"s_init"`  // initial values of S
-	STypes  map[string]int `json:"s_types"` // initial types of S
+	SInit   map[string]int `json:"s_init"`         // initial values of S
+	STypes  map[string]int `json:"s_types"`        // initial types of S
 }
 
 // Out is an operation's observable result.
@@ -80,7 +80,7 @@ func init() { harness.Register(Prop{}) }
 func (Prop) ID() string { return "C13" }
 
 var allKinds = []string{"Define", "DefineDot", "Set", "Get", "Delete", "DeleteGlobal", "DefineType", "Type",
-	"ValueSymbols", "TypeSymbols", "Copy", "DeepCopy", "String", "Addr", "NewModule", "EnvFromPath", "DefineGlobal", "EnvFromPath2"}
+	"ValueSymbols", "TypeSymbols", "Copy", "DeepCopy", "String", "Addr", "NewModule", "EnvFromPath", "DefineGlobal", "EnvFromPath2", "CopyMut", "DeepCopyMut"}
 
 func (Prop) Gen(seed int64, tier string) *harness.Case {
 	r := harness.Rand(seed)
@@ -120,7 +120,7 @@ func (Prop) Gen(seed int64, tier string) *harness.Case {
 		}
 	}
 	writers := []string{"Define", "Set", "Delete", "DeleteGlobal", "NewModule", "DefineType"}
-	readers := []string{"Get", "ValueSymbols", "Copy", "String", "Addr", "DeepCopy", "TypeSymbols", "Type"}
+	readers := []string{"Get", "ValueSymbols", "Copy", "String", "Addr", "DeepCopy", "TypeSymbols", "Type", "CopyMut", "DeepCopyMut"}
 	enabled[writers[r.Intn(len(writers))]] = true
 	enabled[writers[r.Intn(len(writers))]] = true
 	enabled[readers[r.Intn(len(readers))]] = true
@@ -321,6 +321,17 @@ func apply(st state, op Op, rooted bool) (state, Out) {
 		return st, Out{Str: symbols(st.types)}
 	case "Copy", "DeepCopy", "String", "ReadAll":
 		return st, Out{Str: encode(st)}
+	case "CopyMut", "DeepCopyMut":
+		// a copy that its owner writes to at once: a snapshot plus that one binding, and S never sees it
+		old, had := st.vals[copyMutName]
+		st.vals[copyMutName] = op.Val
+		enc := encode(st)
+		if had {
+			st.vals[copyMutName] = old
+		} else {
+			delete(st.vals, copyMutName)
+		}
+		return st, Out{Str: enc}
 	case "EnvFromPath":
 		if v, ok := st.vals[op.Name]; ok && v < 0 {
 			return st, Out{Val: v}
@@ -491,6 +502,13 @@ func (r *runner) exec(rc *rec) {
 	case "DeepCopy":
 		cp := e.DeepCopy()
 		rc.rawSnap, rc.rawTypes = snapshotOf(cp)
+	case "CopyMut", "DeepCopyMut":
+		cp := e.Copy()
+		if op.Kind == "DeepCopyMut" {
+			cp = e.DeepCopy()
+		}
+		rc.out.Err = errClass(cp.DefineValue(copyMutName, newVal(op.Val)))
+		rc.rawSnap, rc.rawTypes = snapshotOf(cp)
 	case "String":
 		rc.out.Str = e.String()
 	case "EnvFromPath":
@@ -520,7 +538,7 @@ func (r *runner) finalize(rc *rec) string {
 		}
 		rc.out.Val = id
 	}
-	if rc.rawSnap != nil || rc.op.Kind == "Copy" || rc.op.Kind == "DeepCopy" || rc.op.Kind == "ReadAll" {
+	if rc.rawSnap != nil || rc.op.Kind == "Copy" || rc.op.Kind == "DeepCopy" || rc.op.Kind == "ReadAll" || rc.op.Kind == "CopyMut" || rc.op.Kind == "DeepCopyMut" {
 		st := state{map[string]int{}, map[string]int{}}
 		for k, v := range rc.rawSnap {
 			id, ok := r.resolve(v)
@@ -756,6 +774,9 @@ func (r *runner) build() {
 }
 
 const kModName, kModID = "k", -7
+
+// copyMutName is only ever bound in copies, never in S
+const copyMutName = "zc"
 
 // initState is the model's view of S before the clients start.
 func initState(w *Work) state {
